@@ -51,8 +51,24 @@ def _hal_sources(t):
     t.repo(CORE + "acquire-device-hal/device/hal/camera.c")
     t.repo(CORE + "acquire-device-hal/device/hal/storage.c")
     t.repo(CORE + "acquire-device-hal/device/hal/driver.c")
+    # the mock driver reaches the HAL the way every real driver does: through the loader's wrapper
+    t.repo(CORE + "acquire-device-hal/device/hal/loader.c")
+    t.repo(CORE + "acquire-core-platform/linux/platform.c")
     t.repo(CORE + "acquire-device-properties/device/props/device.c")
     t.repo(CORE + "acquire-core-logger/logger.c")
+
+
+def _hal_extra():
+    import os
+    from vbuild import BUILD
+    out = []
+    for e, exeprof in (("rc", "asan"), ("rp", "asan"), ("fz", "fuzz")):
+        t = Target("hal_tramp_" + e, "asan")  # never coverage-instrumented (see _devsel_extra)
+        t.verif("engine/vmock_trampoline.c")
+        t.shared = True
+        t.out = os.path.join(BUILD, exeprof, "hal_" + e, "libvhalmock.so")
+        out.append(t)
+    return out
 
 
 def _stor_sources(t):
@@ -216,6 +232,8 @@ HARNESSES = {
         "props": ["C11"],
         "sources": _hal_sources,
         "engines": ["rc", "rp", "fz"],
+        "link_flags": ["-rdynamic"],
+        "extra_targets": _hal_extra,
         "quick": {"rc_cases": 20000, "rc_size": 50},
         "thorough": {"rc_cases": 200000, "rc_size": 80, "fz_secs": 120},
         "fz_max_tokens": 80,
